@@ -5,11 +5,15 @@ From Coq Require Import Extraction ExtrOcamlBasic.
 From KV Require Import Bytes WalCodec Memtable Engine.
 From KV Require Import ReadOnly.
 From KV Require Import ApiView.
+From KV Require Import Config.
+From KV Require Import Hist.
 From KV Require Import LockDiscipline.
 From KV.gen Require Locks.
 From KV Require Import SSTable Xxhash Block SSTFile.
 From KV Require Import Iter.
 From KV Require Import Compaction.
+From KV Require Import Txn.
+From KV Require Import TxnAtomic.
 Extraction Language OCaml.
 (* Coq's String module (identifiers of the C07 lock table) must not shadow OCaml's: it is emitted as String0 *)
 Extraction Blacklist String.
@@ -26,6 +30,11 @@ Separate Extraction
   Engine.reopen Engine.run Engine.buffer_ops
   ReadOnly.start ReadOnly.step_client ReadOnly.step_repl ReadOnly.node_get ReadOnly.tx_get
   ReadOnly.node_scan ReadOnly.node_info ReadOnly.rw_open ReadOnly.any_open ApiView.api_view
+  Config.default_config Config.zero_config Config.field_lookup Config.kind_of Config.name_of Config.all_fields
+  Config.get_int Config.get_str Config.set_int Config.set_str Config.set_ratio Config.validate Config.encode
+  Config.save Config.load Config.load_bytes Config.open_db Config.no_dir Config.mkdir Config.truncate_manifest
+  Config.flip_bit Config.pnum Config.float_of_num Config.enc_int Config.N_of_dec Config.dec_of_N
+  Hist.lin_check Hist.lin_verdicts
   LockDiscipline.protectedb LockDiscipline.flagged_rows LockDiscipline.acyclicb Locks.gen_accesses Locks.gen_order
   SSTable.write SSTable.cut SSTable.ti_new SSTable.ti_seek_first SSTable.ti_seek_last SSTable.ti_seek SSTable.ti_next
   SSTable.ti_valid SSTable.ti_cur SSTable.t_get SSTable.wf_sentry SSTable.ascending
@@ -39,4 +48,6 @@ Separate Extraction
   Compaction.cinit Compaction.cput Compaction.cdel Compaction.cbatch Compaction.ccommit Compaction.cflush
   Compaction.cfull Compaction.ctrigger Compaction.crange Compaction.creopen Compaction.cget Compaction.select
   Compaction.select_range Compaction.dsort Compaction.nfresh
+  Txn.ser_check Txn.ser_why
+  TxnAtomic.atomic_check TxnAtomic.first_reject TxnAtomic.crun TxnAtomic.twrites TxnAtomic.cinit
 .
